@@ -20,13 +20,16 @@
     UNIQUE(mailbox_id,uid) are explicit boolean checks that take the error
     branch the Go code takes.  [UPDATE ... WHERE id = ?] is modelled as an
     update of the row that carries the selected name (names are unique).
-    Not modelled: the order in which SQLite returns the LIKE rows (the model
-    uses rowid order; the covering index gives name order -- only observable
+    Children of a mailbox are the rows in db.childNameRange (exact bytewise
+    prefix test; before the fix "find child mailboxes by exact name prefix"
+    this was name LIKE old||'/%', see Base/Like.v).
+    Not modelled: the order in which SQLite returns the child rows (the model
+    uses rowid order; the index gives name order -- only observable
     when two child updates collide, i.e. inside the finding classes);
     the [%] branch of HandleLsub (implied parents); role mailboxes (the
     modelled user has none).  No proofs in this file. *)
 From Coq Require Import String Ascii List Bool Arith ZArith.
-From Raven Require Import Base.GoStr Base.Like Model.Pattern.
+From Raven Require Import Base.GoStr Base.GoStrOrder Model.Pattern.
 Import ListNotations.
 
 Definition dq : ascii := """"%char.
@@ -86,12 +89,15 @@ Definition handle_create (st : store) (parts : list str) : store * res :=
 
 (** ---- DELETE ---- *)
 Definition protected_names : list str := [S_ "Sent"; S_ "Drafts"; S_ "Trash"].
-Definition child_pattern (n : str) : str := n ++ [delim; like_pct].
+(** db.childNameRange + the SQL test [name >= lo AND name < hi] (BINARY collation):
+    lo = n + "/", hi = n + "0" *)
+Definition child_range (n m : str) : bool :=
+  str_leb (n ++ [delim]) m && str_ltb m (n ++ ["0"%char]).
 
 Definition db_delete (bs : list mbox) (n : str) : list mbox * res :=
   if str_eqb (to_upper n) INBOX then (bs, RNo)
   else if negb (exists_box bs n) then (bs, RNo)
-  else if existsb (fun b => like (child_pattern n) (mb_name b)) bs then (bs, RNo)
+  else if existsb (fun b => child_range n (mb_name b)) bs then (bs, RNo)
   else if existsb (fun d => equal_fold n d) protected_names then (bs, RNo)
   else (filter (fun b => negb (str_eqb (mb_name b) n)) bs, ROk).
 
@@ -160,11 +166,11 @@ Definition db_rename (bs : list mbox) (old new : str) : list mbox * res :=
     match (if contains_byte new delim then rename_parents (paths_of new) bs else Some bs) with
     | None => (bs, RNo)     (* the empty path is the first one: nothing was created before it *)
     | Some bs1 =>
-        (* tx: rename the row, select the LIKE rows, update them one by one *)
+        (* tx: rename the row, select the rows in the child range, update them one by one *)
         match upd_name old new bs1 with
         | None => (bs1, RNo)
         | Some bs2 =>
-            let cs := filter (like (child_pattern old)) (names bs2) in
+            let cs := filter (child_range old) (names bs2) in
             match child_updates old new cs with
             | None => (bs1, RPanic)                 (* deferred tx.Rollback; the parents stay *)
             | Some us =>
